@@ -150,8 +150,10 @@ theorem c01_validate_header_is_source {E : Type} (c : ExtCodec E) (tbl : SigTabl
       simp [h1, hz, hq, errCode, Nat.pos_of_ne_zero] <;> omega
   · simp [h1, errCode]
 
-/-- Step order of `ingest_operation`, read from the current source: `validate_operation` comes
-    first, before `begin()` and before anything is looked up or written; de-duplication is keyed on
+/-- Step order of `ingest_operation`, read from the current source: `validate_operation(operation)?`
+    comes first — **no call at all** (no store lookup such as `has_operation` / `get_operation`,
+    no `begin()`, no other validation that could short-cut it) precedes it except the `borrow()` of
+    the argument — before anything is looked up or written; de-duplication is keyed on
     `operation.hash` and answers `Ok(false)`; the operation that is inserted is the validated one. -/
 theorem c01_extracted_ingest_order :
     P2.Extracted.C01.ingestCalls = ["validate_operation", "begin", "has_operation_tx", "rollback",
@@ -160,8 +162,10 @@ theorem c01_extracted_ingest_order :
     P2.Extracted.C01.vpbArgs = "past_header.as_ref(), &operation.header, prune_flag" ∧
     P2.Extracted.C01.dedupKey = "&operation.hash" ∧
     P2.Extracted.C01.dedupReturn = "Ok(false)" ∧
-    P2.Extracted.C01.insertArgs = "&id, operation, log_id" := by
-  refine ⟨rfl, rfl, rfl, rfl, rfl, rfl⟩
+    P2.Extracted.C01.insertArgs = "&id, operation, log_id" ∧
+    P2.Extracted.C01.callsBeforeValidate = ["borrow"] ∧
+    P2.Extracted.C01.validateCall = "operation ?" := by
+  refine ⟨rfl, rfl, rfl, rfl, rfl, rfl, rfl, rfl⟩
 
 /-! ### Tampering -/
 
@@ -258,6 +262,43 @@ theorem c01_delivered_only_if_accepted (out : Outcome) (hasBody decodes autoAck 
     out = .inserted ∨ out = .already :=
   (P2.C04.c04_processed_only_if_completed out hasBody decodes autoAck ackOk h).1
 
+/-- **A tampered re-delivery fails** (stores that already hold the authentic operation): if the
+    store already contains a row under the announced id — the authentic operation was ingested
+    before — a delivery whose header is not an honestly signed one (a field or the signature
+    changed, also when it is announced under the stored id, since ingest never compares the id
+    with the header hash) is still *rejected*: never answered "already exists", store untouched. -/
+theorem c01_tampered_replay_fails {E : Type} (c : ExtCodec E) (keyOk : Nat → Bool) (wfE : E → Prop)
+    (hc : Lawful c wfE) (tbl : SigTable) (Hs : Header E → Prop)
+    (hHs : ∀ h, Hs h → WF keyOk wfE h) (htbl : HonestTable c tbl Hs)
+    (s : Store) (o : Op E) (log topic : Nat) (pf : Bool)
+    (_hstored : hasOp s o.op.id = true)
+    (hrange : o.op.header.version < 2 ^ 16 ∧ o.op.header.payloadSize < 2 ^ 32 ∧
+      o.op.header.seq < 2 ^ 32 ∧ keyOk o.op.header.key = true ∧ wfE o.op.header.ext)
+    (hnot : ¬ Hs o.op.header) :
+    (ingestStep c tbl s o log topic pf).2 ≠ .already ∧
+    (∃ e, (ingestStep c tbl s o log topic pf).2 = .failed e) ∧
+    (ingestStep c tbl s o log topic pf).1 = s := by
+  obtain ⟨⟨e, he⟩, hs⟩ := c01_tampered_ingest_fails c keyOk wfE hc tbl Hs hHs htbl s o log topic pf hrange hnot
+  exact ⟨(by rw [he]; intro h; cases h), ⟨e, he⟩, hs⟩
+
+/-- **A swapped body on a re-delivery fails**: the authentic header of an already stored operation
+    arriving again with a body that does not have the committed hash / size is rejected with
+    `PayloadMismatch` (not "already exists"), whatever the store contains. -/
+theorem c01_body_swap_replay_fails {E : Type} (c : ExtCodec E) (tbl : SigTable) (s : Store) (o : Op E)
+    (log topic : Nat) (pf : Bool) (b : Body) (hb : o.op.body = some b)
+    (hbad : o.op.header.payloadHash ≠ some b.hash ∨ o.op.header.payloadSize ≠ b.size) :
+    (∃ e, (ingestStep c tbl s o log topic pf).2 = .failed e) ∧ (ingestStep c tbl s o log topic pf).1 = s := by
+  have hv : validateOperation c tbl o.op ≠ .ok () := by
+    intro hv
+    have := (validateOperation_ok c tbl o.op hv).2 b hb
+    rcases hbad with h | h
+    · exact h this.1
+    · exact h this.2
+  unfold ingestStep ingestStepWith ingestWith
+  cases hvv : validateOperation c tbl o.op with
+  | ok u => cases u; exact absurd hvv hv
+  | error e => exact ⟨⟨e, rfl⟩, rfl⟩
+
 /-! ### Non-vacuity -/
 
 /-- an honestly signed operation with a body, extending an empty log -/
@@ -287,6 +328,10 @@ example : ingestStep customCodec exTbl Store.empty exOpBody 1 2 false
 
 example : ingestStep customCodec exTbl Store.empty exOpSeq 1 2 false
     = (Store.empty, .failed .signatureMismatch) := by rfl
+
+-- the authentic operation is stored; the same header with a swapped body is rejected, not "already exists"
+example : ingestStep customCodec exTbl { rows := [rowOf exOp 1 false], assoc := [(2, 3, 1)] } exOpBody 1 2 false
+    = ({ rows := [rowOf exOp 1 false], assoc := [(2, 3, 1)] }, .failed .payloadMismatch) := by rfl
 
 example : HonestTable customCodec exTbl (fun h => h = exHdr) := by
   intro k m sg hm
